@@ -6,10 +6,19 @@ CLAIMS["C13"] = dict(engine="seq",
        "has been overwritten with a different value of the same shape (pass 1) or overwritten and freed (pass 2, address-range check instead of a dereference), i.e. what a batch "
        "processor exports, without thread or clock. Enumerated: every ordered selection of <= 3 (thorough: <= 4) distinct argument kinds {severity, body, attributes, timestamp, "
        "event id+name, SpanContext, trace id, span id, trace flags} of the variadic EmitLogRecord (compile-time generated call sites; also with an explicit record for <= 2 arguments) "
-       "x 8 active-span configurations (none, sampled, unsampled, nested both ways, inner ended, SpanContext-in-context, invalid span); every AttributeValue alternative (22 shapes "
-       "incl. empty string, embedded NUL, empty and string arrays) as body and as attribute value; 10 C++ carrier types of the body and 9 of the attributes; attribute list shapes "
-       "(duplicate keys, empty list, empty key); CreateLogRecord + every sequence of <= 3 (thorough: <= 4) of 12 setters + EmitLogRecord(record[, severity]) with the span starting / "
-       "ending between creation and emit; null records; a logger disabled through the ScopeConfigurator; two emits in a row. Oracle at every exporter: exactly one record per effective "
-       "emit, in order; severity, body, attributes (exact key set, last write wins), timestamp, event id/name equal to the emit-time values; each identity component = last explicit "
-       "value, else the span active at creation, else zero; resource and scope equal to the provider's / logger's; nothing exported for null records and disabled loggers.",
-  note=SEQ_NOTE + " Several threads with different active spans are exercised by the separate Engine-A harness conc_c13, not by this one; the real BatchLogRecordProcessor thread is not used.")
+       "x 11 active-span configurations (none, sampled, unsampled, nested both ways, inner ended, SpanContext-in-context, invalid span, null Span pointer / null SpanContext pointer / "
+       "a non-span value under the span key); every AttributeValue alternative (22 shapes incl. empty string, embedded NUL, empty and string arrays) as body and as attribute value; "
+       "10 C++ carrier types of the body and 9 of the attributes; attribute list shapes (duplicate keys, empty list, empty key); one call that writes a field twice (two attribute "
+       "containers sharing a key in both orders and through different carriers, two bodies); CreateLogRecord + every sequence of <= 3 (thorough: <= 4) of 12 setters + "
+       "EmitLogRecord(record[, severity]) with the span starting / ending between creation and emit; null records; a logger disabled through the ScopeConfigurator; two emits in a row; "
+       "all 34 convenience methods of logs::Logger - the 24 inline Trace/Debug/Info/Warn/Error/Fatal wrappers (selected by address with their exact signature), the 4 virtual Log "
+       "overloads with a non-round severity, the 6 variadic Trace..Fatal(args...) templates with 6 argument shapes each - with distinguishable format, attributes, EventId and int64 event "
+       "id, x processor sets x {no span, sampled span} x {scribble, free}, and on the disabled logger; the deprecated EventLogger (EmitEvent(name, args...), EmitEvent(name, record), "
+       "null record, disabled delegate) x {domain, no domain} x {name, no name}. Oracle at every exporter: exactly one record per effective emit, in order; severity, body, attributes "
+       "(exact key set, last write wins), timestamp, event id/name equal to the emit-time values; a field that was never supplied still holds what an untouched recordable holds; each "
+       "identity component = last explicit value, else the span active at creation, else zero; resource and scope equal to the provider's / logger's; nothing exported for null records "
+       "and disabled loggers. On the deferred exporter a string / array value is attributed to the listed known finding (the record keeps views of caller storage) only if it is a view of "
+       "exactly the storage the caller passed for the last value of that very field (same addresses and lengths, and while readable the content the caller put there afterwards); a view of "
+       "any other caller storage is reported as a wrong / overwritten value like on the simple exporter.",
+  note=SEQ_NOTE + " Several threads with different active spans are exercised by the separate Engine-A harness conc_c13, not by this one; the real BatchLogRecordProcessor thread is not used. "
+       "The observed timestamp, the event.domain / event.name attributes added by the EventLogger and the order in which EventLogger::EmitEvent(args...) applies conflicting arguments are not decided.")
